@@ -182,7 +182,7 @@ def iter_writes(st):
     return out
 
 
-def run_loop_isolated(rel, qualname, ordinal, ctx=None, find_kw=None, inner_modes=None):
+def run_loop_isolated(rel, qualname, ordinal, ctx=None, find_kw=None, inner_modes=None, prepare=None):
     """Statement contract on one loop: the loop is located by its syntactic ordinal and its body is executed once
     (iteration contract) from an ARBITRARY state: every local of the function is a free symbol L_<name>, the heap is
     arbitrary.  The surrounding function is not executed (and is named as unverified by the caller).
@@ -229,8 +229,8 @@ def run_loop_isolated(rel, qualname, ordinal, ctx=None, find_kw=None, inner_mode
                 st.locals[x["id"]] = ("obj", tm.sym("&L_%s" % nm, "P"))
             else:
                 st.locals[x["id"]] = tm.sym("L_%s" % nm, sort_of(q))
-    res = ex.iterate_loop(node, st)
     info = {"names": names, "node": node, "nloops": len(loops)}
+    res = ex.iterate_loop(node, st, prepare=(lambda ex_, s_: prepare(ex_, s_, info)) if prepare is not None else None)
     return fn, ex, res, info
 
 
@@ -272,7 +272,12 @@ def run_region(rel, qualname, select, ctx=None, find_kw=None, loop_mode="havoc")
                 st.locals[x["id"]] = ("obj", tm.sym("&L_%s" % nm, "P"))
             else:
                 st.locals[x["id"]] = tm.sym("L_%s" % nm, sort_of(q))
-    stmts = select(A.body_of(fn).get("inner", []))
+    try:
+        stmts = select(A.body_of(fn).get("inner", []))
+    except TypeError:
+        stmts = None
+    if stmts is None and getattr(select, "whole_function", False):
+        stmts = select.pick(fn)
     if not stmts:
         raise Undecided("region not found in %s" % qualname)
     states = [st]
